@@ -126,6 +126,8 @@ structure Out where
   /-- the call itself returned an error (fatal for the RPC at server level) -/
   fatal : Bool := false
   hooks : List HookEv := []
+  /-- resolved-entry notifications: (isAdd, instance, key), for IPv4/IPv6/MPLS entries only -/
+  resolved : List (Bool × NI × Key) := []
   deriving Repr, Inhabited
 
 /-- fire one cascade event: the operation must be held, and trying it now must install it
@@ -139,7 +141,8 @@ def fire (s : Rib) (ev : CEv) : Option (Rib × Out) :=
       match classify s op with
       | .ok =>
         let (s', hk) := install s op
-        some ({ s' with pend := s'.pend.erase id }, { oks := [op], hooks := hk })
+        some ({ s' with pend := s'.pend.erase id },
+              { oks := [op], hooks := hk, resolved := if op.key.isTop then [(true, op.ni, op.key)] else [] })
       | _ => none
   | .fail id =>
     match s.pend.get? id with
@@ -151,7 +154,7 @@ def fire (s : Rib) (ev : CEv) : Option (Rib × Out) :=
 
 def Out.append (a b : Out) : Out :=
   { oks := a.oks ++ b.oks, fails := a.fails ++ b.fails, fatal := a.fatal || b.fatal,
-    hooks := a.hooks ++ b.hooks }
+    hooks := a.hooks ++ b.hooks, resolved := a.resolved ++ b.resolved }
 
 def runCascade (s : Rib) : List CEv → Option (Rib × Out)
   | [] => some (s, {})
@@ -184,7 +187,10 @@ def add (s : Rib) (op : Op) (script : List CEv) : Option (Rib × Out) :=
       match runCascade s1 script with
       | none => none
       | some (s2, o2) =>
-        if quiescent s2 then some (s2, ({ oks := [op], hooks := hk } : Out).append o2) else none
+        if quiescent s2 then
+          some (s2, ({ oks := [op], hooks := hk,
+                       resolved := if op.key.isTop then [(true, op.ni, op.key)] else [] } : Out).append o2)
+        else none
 
 /-! ### delete -/
 
@@ -223,7 +229,8 @@ def del (s : Rib) (op : Op) : Rib × Out :=
       | some p =>
         let s1 := unref s op.ni op.key p
         ({ s1 with ents := s1.ents.erase (op.ni, op.key) },
-         { oks := [op], hooks := if s.hook then [.del op.ni op.key (some p)] else [] })
+         { oks := [op], hooks := if s.hook then [.del op.ni op.key (some p)] else [],
+           resolved := if op.key.isTop then [(false, op.ni, op.key)] else [] })
 
 /-! ### flush -/
 
